@@ -491,3 +491,244 @@ def replay_history(ctx, base, wb, r):
         print(json.dumps({"compiler": cname, "requested_sets_differ_in": diff, "rc": out["rc"], "diagnostics": out["headers"].get("A_1_0"),
                           "property_holds": ok}))
     return 1 if bad else 0
+
+
+# ---------------------------------------------------------------------------------------------------------------------
+# request DELIVERY: the same requested option set arriving through different configuration sources
+# (CLI flags, one --configuration YAML, two YAML files with the language section in both, builder override calls incl. a
+# caller-owned dict reused across builders, mixtures).  Documented precedence: explicit API override / CLI flag > later
+# file > earlier file > built-in default; a second override of the same key REPLACES the first.
+# ---------------------------------------------------------------------------------------------------------------------
+TE, ESA, EOVA = "target_endianness", "enable_serialization_asserts", "enable_override_variable_array_capacity"
+
+
+def merged_request(files, explicit):
+    m = {}
+    for f in files:
+        m.update(f)
+    m.update(explicit)
+    return m
+
+
+def delivery_plan(ctx, base, wb, lang):
+    rng = ctx.rng
+    d = wb.dom[lang]
+    cli = [
+        ("one-file", {}, [{TE: "little", ESA: True, EOVA: True}]),
+        ("two-files-split", {}, [{TE: "little"}, {ESA: True, EOVA: True}]),
+        ("two-files-later-wins", {}, [{TE: "big", ESA: True}, {TE: "little", EOVA: True}]),
+        ("flag-over-file", {TE: "little"}, [{TE: "big", ESA: True, EOVA: True}]),
+        ("file-only", {}, [{TE: "little"}]),
+        ("file-only", {}, [{TE: "big"}]),
+        ("flags-and-two-files", {ESA: True}, [{TE: "little"}, {EOVA: True}]),
+    ]
+    if lang == "cpp":
+        cli.append(("two-files-split", {}, [{"std": "c++17-pmr"}, {ESA: True}]))
+    for _ in range(3 if ctx.quick else 25):
+        keys = rng.sample([k for k in d.order if k not in ("ctor_convention", "allocator_type", "cast_format")], rng.choice([1, 2, 3, 4]))
+        flags, files = {}, [{}, {}]
+        for k in keys:
+            vs = [v for v in d.values(k) if v != base.ABSENT]
+            v = rng.choice(vs)
+            src = d.by_key[k].get("cli")
+            can_flag = bool(src) and ((src["kind"] == "choice" and v in src["values"]) or (src["kind"] == "flag" and v is True))
+            ch = rng.choice(["flag", "f0", "f1", "f1"]) if can_flag else rng.choice(["f0", "f1"])
+            if ch == "flag":
+                flags[k] = v
+            else:
+                files[int(ch[1])][k] = v
+            if ch != "f0" and rng.random() < 0.4:      # an earlier, overridden value
+                others = [x for x in vs if x != v]
+                if others:
+                    files[0][k] = rng.choice(others)
+        if lang == "cpp" and (flags.get("std") in d.presets or any(f.get("std") in d.presets for f in files)):
+            continue    # presets overwrite whatever else is requested: covered by the fixed entry
+        cli.append(("random-mix", flags, [f for f in files] if files[1] else [files[0]]))
+    api = [
+        ("api-two-overrides-shared-dict", [], [("ref", "shared"), ("value", {TE: "little"})]),
+        ("api-two-overrides-shared-dict", [], [("ref", "shared"), ("value", {})]),
+        ("api-file-and-override", [{TE: "big"}], [("ref", "shared")]),
+        ("api-two-files-and-override", [{TE: "big"}, {EOVA: True}], [("value", {TE: "little"})]),
+        ("api-one-override-shared-dict", [], [("ref", "shared")]),
+        ("api-two-files-split", [{TE: "little"}, {ESA: True}], []),
+    ]
+    return cli, api
+
+
+def delivery_stream(ctx, base, drv, wb):
+    import yaml
+    from translate import optiondomain as od
+    root = wb.root / "deliv"
+    root.mkdir()
+    shared_value = {ESA: True}
+    runs = []       # dict(lang, name, how, request, sup, typ, ok, err)
+
+    def write_yaml(path, lang, opts):
+        path.write_text(yaml.safe_dump({"nunavut.lang." + lang: {"options": opts}}, sort_keys=False, allow_unicode=True))
+        return path
+
+    def cli_run(idx, lang, name, flags, files):
+        dd = root / f"c{idx}"
+        dd.mkdir()
+        d = wb.dom[lang]
+        args = [str(wb.ns), "--experimental-languages", "--target-language", lang, "--outdir", str(dd / "all")]
+        for k, v in flags.items():
+            src = d.by_key[k]["cli"]
+            args += [src["switch"], v] if src["kind"] == "choice" else [src["switch"]]
+        paths = [str(write_yaml(dd / f"f{i}.yaml", lang, f)) for i, f in enumerate(files)]
+        if paths:
+            args += ["--configuration"] + paths
+        p = od.run_nnvg(args, timeout=180)
+        r = {"lang": lang, "name": name, "how": {"cli_flags": flags, "configuration_files": files}, "request": merged_request(files, flags),
+             "ok": p.returncode == 0, "err": p.stderr[-400:], "invocation": " ".join(args)}
+        if r["ok"]:
+            (dd / "sup").mkdir()
+            (dd / "typ").mkdir()
+            if (dd / "all" / "nunavut").exists():
+                shutil.move(str(dd / "all" / "nunavut"), str(dd / "sup" / "nunavut"))
+            shutil.move(str(dd / "all" / base.NS), str(dd / "typ" / base.NS))
+            r["sup"], r["typ"] = dd / "sup", dd / "typ"
+        return r
+
+    def api_runs(lang, api):
+        dd = root / f"a_{lang}"
+        dd.mkdir()
+        steps = [{"op": "new_dict", "name": "shared", "value": shared_value}]
+        meta = []
+        for i, (name, files, ovs) in enumerate(api):
+            paths = [str(write_yaml(dd / f"r{i}_f{j}.yaml", lang, f)) for j, f in enumerate(files)]
+            steps.append({"op": "build_generate", "lang": lang, "files": paths, "omit": False, "out": str(dd / f"run{i}"),
+                          "overrides": [{"ref": v} if kind == "ref" else {"value": v} for kind, v in ovs]})
+            last = {} if not ovs else (dict(shared_value) if ovs[-1][0] == "ref" else dict(ovs[-1][1]))
+            meta.append({"lang": lang, "name": name, "request": merged_request(files, last),
+                         "how": {"configuration_files": files, "override_calls": [{"the shared dict": shared_value} if k == "ref" else v for k, v in ovs],
+                                 "process": "all api deliveries of this language run in one process, in the listed order"}})
+        (dd / "history.json").write_text(json.dumps({"ns": str(wb.ns), "steps": steps}))
+        p = subprocess.run([common.PY, str(WORKER), str(dd / "history.json")], env=od.nnvg_env(), capture_output=True, text=True, timeout=600)
+        try:
+            res = json.loads(p.stdout.strip().splitlines()[-1])[1:]
+        except Exception:  # pylint: disable=broad-except
+            res = [{"ok": False, "error": "worker: " + p.stderr[-300:]}] * len(api)
+        out = []
+        for i, (m, r) in enumerate(zip(meta, res)):
+            m["ok"], m["err"] = bool(r.get("ok")), r.get("error", "")
+            if m["ok"]:
+                sup, typ = dd / f"sup{i}", dd / f"typ{i}"
+                sup.mkdir()
+                typ.mkdir()
+                if (dd / f"run{i}" / "nunavut").exists():
+                    shutil.move(str(dd / f"run{i}" / "nunavut"), str(sup / "nunavut"))
+                shutil.move(str(dd / f"run{i}" / base.NS), str(typ / base.NS))
+                m["sup"], m["typ"] = sup, typ
+            out.append(m)
+        return out
+
+    plans = {lang: delivery_plan(ctx, base, wb, lang) for lang in ("c", "cpp")}
+    with concurrent.futures.ThreadPoolExecutor(max_workers=base.NWORK) as ex:
+        futs = []
+        n = 0
+        for lang, (cli, api) in plans.items():
+            for name, flags, files in cli:
+                futs.append(ex.submit(cli_run, n, lang, name, flags, files))
+                n += 1
+        afuts = [ex.submit(api_runs, lang, api) for lang, (cli, api) in plans.items()]
+        runs = [f.result() for f in futs] + [m for f in afuts for m in f.result()]
+    # ---- references: the requested set delivered the plain way (flags / one file, one process per set) -------------------
+    refs = []
+    for r in runs:
+        d = wb.dom[r["lang"]]
+        same = d.ordered(dict(d.defaults, **r["request"]))
+        k = next((k for k in list(r["request"]) + [TE] if k in d.by_key and len(d.values(k)) > 1), TE)
+        cur = d.effective(same).get(k)
+        other = next(v for v in d.values(k) if v != base.ABSENT and v != cur)
+        diff = d.ordered(dict(same, **{k: other}))
+        r["ref_same"], r["ref_diff"], r["diff_key"] = same, diff, k
+        refs += [(r["lang"], same, False), (r["lang"], diff, False)]
+    wb.generate_all(refs)
+    # ---- tie: emitted lists vs the model rendering of the effective requested set ---------------------------------------
+    if drv is not None:
+        lines = [f"hist {r['lang']} T,0,{base.pset(r['lang'], wb.dom[r['lang']].ordered(dict(r['request'])))}" for r in runs]
+        for r, a in zip(runs, drv.ask(lines)):
+            ctx.traces += 1
+            rep = {"delivery": r["name"], "lang": r["lang"], "how": r["how"], "requested_by_precedence": r["request"]}
+            if not r["ok"]:
+                real = real_effective(r["lang"], r["request"])
+                real = real if isinstance(real, str) else "generation failed: " + r["err"][-200:]
+            else:
+                defs, per_header = observe_run(base, r["lang"], r)
+                real = "ok:" + ("x" if defs is None else show_pairs(defs)) + ":" + show_pairs(per_header[0] or [])
+            if a != "uninterpretable" and a != real:
+                ctx.disagree("delivery-emission", rep, a, real)
+        # the model's own precedence (Builder.deliver / create: files in order, then the override calls) against the harness'
+        lines = []
+        for r in runs:
+            how = r["how"]
+            ovs = how.get("override_calls")
+            if ovs is None:
+                ovs = [how["cli_flags"]]          # the CLI makes one override call carrying the flags that were given
+            ovs = [(shared_value if (isinstance(o, dict) and "the shared dict" in o) else o) for o in ovs]
+            sets = lambda ss: "&".join(base.pset(r["lang"], s) for s in ss) or "."
+            lines.append(f"dflow {r['lang']} {sets(how['configuration_files'])} {sets(ovs)}")
+        for r, a in zip(runs, drv.ask(lines)):
+            ctx.traces += 1
+            d = wb.dom[r["lang"]]
+            m = parse_flow(base, a)
+            want = real_effective(r["lang"], r["request"])
+            if m != want:
+                ctx.disagree("delivery-precedence", {"delivery": r["name"], "lang": r["lang"], "how": r["how"]}, m, want)
+    # ---- failing-input search -------------------------------------------------------------------------------------------
+    jobs = []
+    for r in runs:
+        ctx.count(f"delivery:{r['lang']}:{r['name']}" + ("" if r["ok"] else ":rejected"))
+        if not r["ok"]:
+            continue
+        d = wb.dom[r["lang"]]
+        e = d.effective(r["ref_same"])
+        for tag, req in (("same", r["ref_same"]), ("diff", r["ref_diff"])):
+            g = wb.get(r["lang"], req)
+            if g.ok:
+                cname, cmd = base.compilers_for(r["lang"], e, d.effective(req), False)[0]
+                jobs.append((r, tag, d.effective(req), g.dir / "sup", r["typ"], cname, cmd, {"reference": "plain generation", "options_support": req}))
+    # the coordinator's scenario directly: two deliveries of the same kind that were asked to differ
+    for a in runs:
+        for b in runs:
+            if a is not b and a["ok"] and b["ok"] and a["lang"] == b["lang"] and a["name"] == b["name"] and a["name"] != "random-mix":
+                d = wb.dom[a["lang"]]
+                ea, eb = d.effective(d.ordered(dict(d.defaults, **a["request"]))), d.effective(d.ordered(dict(d.defaults, **b["request"])))
+                cname, cmd = base.compilers_for(a["lang"], ea, eb, False)[0]
+                jobs.append((b, "cross", ea, a["sup"], b["typ"], cname, cmd, {"support_delivery": a["how"], "support_requested": a["request"]}))
+    tus = {lang: wb.root / f"tu_{lang}{'.c' if lang == 'c' else '.cpp'}" for lang in ("c", "cpp")}
+    with concurrent.futures.ThreadPoolExecutor(max_workers=base.NWORK) as ex:
+        futs = [(j, ex.submit(base.compile_tu, wb, j[0]["lang"], j[3], j[4], tus[j[0]["lang"]], base.TYPE_STEMS, j[5], j[6])) for j in jobs]
+        results = [(j, f.result()) for j, f in futs]
+    for (r, tag, e_sup, _, _, cname, cmd, extra), res in results:
+        lang = r["lang"]
+        d = wb.dom[lang]
+        e_typ = d.effective(d.ordered(dict(d.defaults, **r["request"])))
+        diff = base.differing_keys(e_sup, e_typ)
+        names = {od.real_name(lang, k): k for k in set(e_sup) | set(e_typ)}
+        named = {names.get(n, n) for h in res["headers"].values() for _, n in h}
+        ctx.case(("delivery", lang, r["name"], json.dumps(r["how"], sort_keys=True, default=str), tag, base.canon(e_sup), cname), True)
+        ctx.count("delivery-pair:" + tag + (":accepted" if res["rc"] == 0 else ":rejected"))
+        rp = dict({"delivery": r["name"], "lang": lang, "types_delivery": r["how"], "types_requested_by_precedence": r["request"],
+                   "types_invocation": r.get("invocation"), "effective_support": e_sup, "effective_types": e_typ, "compiler": cname,
+                   "cmd": " ".join(res["cmd"]), "rc": res["rc"], "diagnostics": res["headers"], "other_errors": res["other"][:5],
+                   "stderr": res["stderr"][:800]}, **extra)
+        if diff:
+            if res["rc"] == 0:
+                ctx.fail({"kind": "different-sets-accepted", "lang": lang, "options": diff, "delivery": r["name"]},
+                         "type headers whose options were requested through this configuration source compile against a support header "
+                         "generated with a different requested option set", rp)
+            elif not (named & set(diff)):
+                ctx.fail({"kind": "rejected-without-naming-the-option", "lang": lang, "options": diff, "delivery": r["name"]},
+                         "the build fails but no static-assertion diagnostic names a differing option", rp)
+        elif named:
+            ctx.fail({"kind": "identical-sets-rejected", "lang": lang, "options": sorted(named), "delivery": r["name"]},
+                     "the same requested option set delivered through this configuration source and delivered plainly yields headers "
+                     "that the option guard rejects: the source did not apply the requested value", rp)
+        elif res["rc"] != 0 and base.strictly_compilable(lang, d, e_typ):
+            first = (res["other"] or ["?:0: ?"])[0]
+            ctx.fail({"kind": "identical-sets-do-not-compile", "lang": lang, "file": first.split(":")[0], "error": first.split(": ", 1)[-1][:60],
+                      "delivery": r["name"]}, "headers generated from identical requested options do not compile together", rp)
+    ctx.extra["deliveries"] = len(runs)
+    ctx.extra["delivery_pair_compiles"] = len(jobs)
